@@ -12,12 +12,12 @@ import (
 // snap is what the simulator can see of the implementation after one atomic step.
 type snap struct {
 	nodes   []latch.VerifNode
-	waiting [][]int  // per slot: transaction indices in queue order (-1: unknown lock)
-	holder  [][]int  // per node: index of the holding transaction or -1
+	waiting [][]int       // per slot: transaction indices in queue order (-1: unknown lock)
+	holder  [][]int       // per node: index of the holding transaction or -1
 	lock    []*latch.Lock // per transaction: its Lock if the simulator can see it, else nil
-	ac      []int    // per transaction: Lock.acquiredCount (-1 unknown)
-	stale   []bool   // per transaction: Lock.IsStale()
-	lkeys   [][]string // per transaction: the lock's sorted keys
+	ac      []int         // per transaction: Lock.acquiredCount (-1 unknown)
+	stale   []bool        // per transaction: Lock.IsStale()
+	lkeys   [][]string    // per transaction: the lock's sorted keys
 }
 
 // takeSnap reads the latches. find maps a *Lock to its transaction.
@@ -140,7 +140,12 @@ type monitor struct {
 	unlocking   []bool // unlock has begun
 	fullClaim   []bool // Lock returned success and unlock has not begun: it claims all its keys
 	lastRel     int    // step of the latest release of any key
-	bound       int
+	// implementation's per-key memory after the previous step, and the keys for which it shrank
+	// (a node vanished or its max commit ts went down): the list recycling forgot them
+	prevMax   map[string]uint64
+	dropped   map[string]int
+	bound     int
+	maxReturn int // greatest number of steps between (call or last release) and the return of a Lock
 
 	viol  map[string]simkit.Violation
 	vord  []string
@@ -151,7 +156,7 @@ func newMonitor(txns []Txn, bound int) *monitor {
 	n := len(txns)
 	m := &monitor{txns: txns, maxRel: map[string]uint64{}, relBy: map[string]string{}, prev: map[string][]int{},
 		verdict: make([]int, n), verdictStep: make([]int, n), callStep: make([]int, n), unlocking: make([]bool, n), fullClaim: make([]bool, n),
-		bound: bound, viol: map[string]simkit.Violation{}, stats: map[string]int{}}
+		prevMax: map[string]uint64{}, dropped: map[string]int{}, bound: bound, viol: map[string]simkit.Violation{}, stats: map[string]int{}}
 	for i := range m.callStep {
 		m.callStep[i] = -1
 	}
@@ -199,9 +204,9 @@ func (m *monitor) expectStale(i int) (bool, string) {
 type stepInfo struct {
 	step     int
 	desc     string
-	called   []int // transactions whose Lock call began in this step
+	called   []int       // transactions whose Lock call began in this step
 	returned map[int]int // transaction -> verdict returned by acquire()/Lock() in this step
-	unlock   []int // transactions whose unlock began in this step
+	unlock   []int       // transactions whose unlock began in this step
 }
 
 // observe digests one atomic step.
@@ -306,6 +311,21 @@ func (m *monitor) observe(si *stepInfo, s *snap, ctx func() string) {
 		}
 	}
 	m.prev = now
+	curMax := map[string]uint64{}
+	for _, nd := range s.nodes {
+		if nd.MaxCommitTS >= curMax[nd.Key] {
+			curMax[nd.Key] = nd.MaxCommitTS
+		}
+	}
+	for k, old := range m.prevMax {
+		if old > 0 && curMax[k] < old {
+			if _, ok := m.dropped[k]; !ok {
+				m.dropped[k] = si.step
+				m.stats["probe.node-forgotten"]++
+			}
+		}
+	}
+	m.prevMax = curMax
 	// 3. verdicts
 	for i := range m.txns {
 		if m.verdict[i] != vNone {
@@ -344,8 +364,9 @@ func (m *monitor) observe(si *stepInfo, s *snap, ctx func() string) {
 			sig := "stale-missed"
 			for _, k := range m.txns[i].Keys {
 				if m.maxRel[k] > m.txns[i].Start {
-					if _, found := s.nodeMax(k); !found {
-						sig = "stale-missed recycled-node"
+					if st, ok := m.dropped[k]; ok {
+						sig = "stale-missed after-node-recycled"
+						why += fmt.Sprintf("; the implementation dropped its record of key %q (max commit ts) in step %d", k, st)
 					}
 				}
 			}
@@ -371,8 +392,8 @@ func (m *monitor) observe(si *stepInfo, s *snap, ctx func() string) {
 		if d := si.step - from; d > m.bound {
 			m.report("slow-return", "bound", fmt.Sprintf("step %d (%s): the lock request of T%d returned %d steps after the later of its call and the last release (bound %d)\n%s", si.step, si.desc, i, d, m.bound, ctx()))
 		}
-		if d := si.step - from; d > m.stats["model.max-steps-to-return"] {
-			m.stats["model.max-steps-to-return"] = d
+		if d := si.step - from; d > m.maxReturn {
+			m.maxReturn = d
 		}
 	}
 }
@@ -388,6 +409,11 @@ func (m *monitor) key() string {
 	for _, k := range ks {
 		fmt.Fprintf(&sb, "%s=%d,", k, m.maxRel[k])
 	}
-	fmt.Fprintf(&sb, "|%v%v%v", m.verdict, m.unlocking, m.fullClaim)
+	ds := make([]string, 0, len(m.dropped))
+	for k := range m.dropped {
+		ds = append(ds, k)
+	}
+	sort.Strings(ds)
+	fmt.Fprintf(&sb, "|%v%v%v%v", m.verdict, m.unlocking, m.fullClaim, ds)
 	return sb.String()
 }
